@@ -20,7 +20,7 @@ DESCRIPTION = {
              "dataReceived/data_received; attached peers receive the same messages in order; no frame longer than the peer's announced maximum is written (the sender gets an "
              "exception); an over-limit incoming prefix closes the transport before the payload arrives; corruption closes the transport (WS 1002/1011, RawSocket abort) and the "
              "session's onClose is called exactly once.  A session that took the transport in onOpen and then raised is told exactly once, too.  RawSocket limits include non powers of two; the limit that counts is the one read from each side's handshake octets.  Subprotocol negotiation is also enumerated over batched and unbatched variants of two serializers.  Non-trivial = handshake differing from a valid one in one field, a message within +-1 of a limit, or an injected "
-             "corruption; enumerated handshakes count each value."),
+             "corruption; enumerated handshakes count each value. (c') RawSocket client and server of each framework against a raw peer announcing every maximum 2^9..2^20 (thorough: 2^23): messages of limit-1 / limit go out as one exact frame, limit+1 / 3*limit are refused with an error and nothing is written."),
     "assumptions": ["non-zero reserved RawSocket octets: only 'no exception, same verdict under every split' is asserted",
                     "cross-framework pairings (Twisted client <-> asyncio server) are not run: one framework per process",
                     "an exception raised by lengthLimitExceeded out of Twisted's dataReceived counts as rejection (the driver converts it into connection loss as the reactor does)"],
